@@ -25,7 +25,7 @@ pub fn run(args: &Args) -> i32 {
     let depth: usize = std::env::var("VERIF_C03_DEPTH").ok().and_then(|s| s.parse().ok()).unwrap_or(args.tier.pick(1, 2));
     let run_variants: Vec<Variant> = args.tier.pick(vec![Variant::File], vec![Variant::File, Variant::Mapped]);
     let open_variants: Vec<Variant> = if c02 { args.tier.pick(vec![Variant::File, Variant::Mapped], vec![Variant::File, Variant::Mapped, Variant::AnyFile, Variant::AnyMapped]) } else { args.tier.pick(vec![Variant::Mapped], vec![Variant::File, Variant::Mapped]) };
-    let tears = args.tier.pick(false, true);
+    let thorough = args.tier == engine::Tier::Thorough;
     let images = AtomicU64::new(0);
     let opens = AtomicU64::new(0);
     let steps_run = AtomicU64::new(0);
@@ -38,6 +38,8 @@ pub fn run(args: &Args) -> i32 {
         scratch.clear();
         let path = scratch.path("db.agdb");
         let walp = wal_name(&path);
+        // thorough: tears, all open variants and both run variants for histories of one step; depth-2 histories run on DbFile without tears
+        let tears = thorough && hist.is_empty();
         let last_name = match last {
             Last::H(i) => w.alpha[*i].0.to_string(),
             other => format!("{other:?}").to_lowercase(),
@@ -131,6 +133,7 @@ pub fn run(args: &Args) -> i32 {
                 let next = events.get(k).map(|e| e.kind()).unwrap_or("end");
                 // quick C02: each image is opened with one of the variants in turn (all of them in thorough)
                 let rotate = c02 && !tears;
+                let open_variants: &[Variant] = if thorough && !hist.is_empty() { &open_variants[..open_variants.len().min(2)] } else { &open_variants };
                 for (oi, ov) in open_variants.iter().enumerate() {
                     if rotate && oi != (k + cut) % open_variants.len() {
                         continue;
@@ -213,6 +216,9 @@ pub fn run(args: &Args) -> i32 {
     for rv in &run_variants {
         for b in 0..w.bases.len() {
             for p in &prefixes {
+                if !p.is_empty() && *rv != Variant::File {
+                    continue;
+                }
                 for l in &lasts {
                     items.push((*rv, b, p.clone(), l.clone()));
                 }
@@ -266,7 +272,7 @@ pub fn run(args: &Args) -> i32 {
     report.set("history_depth", json!(depth));
     report.set("run_variants", json!(run_variants.iter().map(|v| v.name()).collect::<Vec<_>>()));
     report.set("open_variants", json!(open_variants.iter().map(|v| v.name()).collect::<Vec<_>>()));
-    report.set("torn_last_call", json!(tears));
+    report.set("torn_last_call", json!(if thorough { "for histories of one step" } else { "no" }));
     report.set("exhaustive", json!(true));
     report.set("rule", json!("every history of <= depth steps over H (+ close, optimize_storage, shrink_to_fit as last step) from 6 base states; crash points = every prefix of the file-system calls of the last step (thorough: plus 3 byte-prefixes of the interrupted write); each distinct (data, log) image is reopened with the listed variants and fully dumped. distinct_nontrivial = distinct crash images. C02: open + full read succeed, no panic, no allocation >= 256 MiB. C03: dump equals the live database's own dump before or after the step."));
     report.assume("crash model: prefix of the process's file-system calls (process death; the code never syncs)");
